@@ -21,6 +21,8 @@ use crate::compiler::analyses::constructibles::ConstructibleDb;
 use crate::compiler::analyses::framework_items::FrameworkItemDb;
 use crate::compiler::app::GENERATED_APP_PACKAGE_ID;
 use crate::compiler::computation::Computation;
+use crate::compiler::framework_rustdoc::resolve_type_path;
+use crate::compiler::traits::assert_trait_is_implemented;
 use crate::diagnostic::{AnnotatedSource, CompilerDiagnostic, HelpWithSnippet};
 use crate::language::LifetimeGenerator;
 use crate::language::{
@@ -451,6 +453,12 @@ impl RequestHandlerPipeline {
         // We iterate in reverse order because closer to the request handler
         // we are less likely to encounter borrowing issues that relate to some of
         // our synthetic types.
+        let copy_trait = {
+            let Type::Path(c) = resolve_type_path("core::marker::Copy", krate_collection) else {
+                unreachable!()
+            };
+            c
+        };
         'stage_iter: for stage in stages.iter_mut().rev() {
             let ids: Vec<_> = stage
                 .pre_processing_ids
@@ -534,6 +542,11 @@ impl RequestHandlerPipeline {
 
             let mut type2cloning_indexes = IndexMap::with_capacity(type2info.len());
             for (ty_, cloning_info) in type2info.into_iter() {
+                // A `Copy` type can be passed by value as many times as needed,
+                // there is nothing to clone and nothing to complain about.
+                if assert_trait_is_implemented(krate_collection, &ty_, &copy_trait).is_ok() {
+                    continue;
+                }
                 let mut consumers = cloning_info.consumed_by;
 
                 let last_consumer = match cloning_info.ref_by.last() {
